@@ -213,6 +213,9 @@ func setupDirs(w *simrt.World) {
 
 const baseConfigPath = "/sim/base/config.yaml"
 
+// missingDirPrefix + step name: the working directory of a step that has none (iofault variant).
+const missingDirPrefix = "/sim/nodir/"
+
 // stopForgottenAfter: no injected stall or latency keeps an acknowledged stop from taking effect for this long.
 const stopForgottenAfter = 20 * time.Second
 
@@ -530,6 +533,12 @@ func stepsim(t *testing.T, tp *simrt.Tape, opts RunOpts) *Outcome {
 				// more captured outputs than in the plain batch: their pipe is one of the things that can fail
 				s.Output = "OUT_" + s.Name
 				s.OutText = "v-" + s.Name + "\n"
+			}
+			if s.Script == "" && s.Stdout == "" && s.Stderr == "" && s.RetryLimit > 0 && chance(tp, 1, 6) {
+				// a working directory that does not exist: every attempt fails before a process is made, and
+				// the step waits out its retry intervals without ever having run
+				s.Dir = missingDirPrefix + s.Name
+				s.RetryInterval = pick(tp, 1, 1, 2)
 			}
 		}
 		sc.IOFault = drawIOFaultCfg(tp)
